@@ -125,6 +125,16 @@ class C02(Check):
         for n in (0, 1, 2, 3, 127, 128, 129):
             cs.append(Case(("subfield_rt add %d %s" % (n, " ".join([KB, KI][i % 2] for i in range(n)))).strip(), "subfield"))
         cs.append(Case("subfield_rt pk " + KB, "subfield"))
+        # the TYPED extra (ExtraField, a sequence of sub-fields) is a component record with an encoder of its own: serialised with
+        # the encoder's contract checked (reported length, every writer incl. the one that is a byte too short, `serialize`
+        # afterwards), converted to raw and parsed back (op extra_rt of the C16 check)
+        from props import c16 as X
+        xkeys = X.Keys(rng)
+        for _ in range(120 if tier == "quick" else 1200):
+            fs = [X.field(rng, xkeys, rng.choice(X.KINDS[:5])) for _ in range(rng.choice([0, 1, 1, 2, 3, 5]))]
+            if rng.random() < 0.3:
+                fs.append(("pad", rng.choice([0, 1, 7, 255])))
+            cs.append(Case(("extra_rt " + " ".join(X.toks_list(fs))).strip(), "typed-extra"))
         seen, out = set(), []
         for c in cs:
             if c.line not in seen:
@@ -151,6 +161,8 @@ class C02(Check):
             return "serialise/parse of a well-formed value did not return: " + impl[:80]
         hx = "" if w[1] == "-" else w[1]
         n = len(hx) // 2
+        if case.line.startswith("extra_rt "):
+            return None        # OK <raw> <parse dump>: compared with the model; anything but OK was flagged above
         if case.line.startswith("subfield_rt "):
             if int(w[2]) != n or w[3] != "1" or int(w[4]) != n or w[5] != "1":
                 return "sub-field: parse(serialise(x)) != x or consumed %s of %d bytes (%s)" % (w[4] if len(w) > 4 else "?", n, impl[:80])
